@@ -34,6 +34,12 @@ var Variants = []VariantInfo{
 	// good injector + an unused top-level set that merely COMBINES two sets, each fine alone, cyclic together
 	{Name: "ok_cycleset", Class: ClassOK, BadSet: true},
 	{Name: "noinj", Class: ClassNone},
+	// a directory that holds only _test.go files: go list reports it as a package without Go files
+	{Name: "testonly", Class: ClassNone},
+	// accepted programs in corners of the language (found by bug-hunting sub-agents, DESIGN section 6):
+	{Name: "ok_unsafeptr", Class: ClassOK}, // an injector whose result is unsafe.Pointer, with a fallible provider
+	{Name: "ok_generic2", Class: ClassOK},  // a copied declaration instantiating a generic type with two type arguments
+	{Name: "ok_setalias", Class: ClassOK},  // type Set = wire.ProviderSet declared next to a well-formed set variable
 	{Name: "bad_missing", Class: ClassBad, Stem: "no provider found"},
 	{Name: "bad_unused", Class: ClassBad, Stem: "unused provider"},
 	{Name: "bad_multi", Class: ClassBad, Stem: "multiple bindings"},
@@ -320,6 +326,83 @@ import (
 func InitQux() *Qux {
 	wire.Build(ProvideFoo{N}, ProvideBar, ProvideBaz, lib.Set, wire.Struct(new(Qux), "*"))
 	return nil
+}
+`),
+		}
+	case "testonly":
+		return []world.File{
+			f("only_test.go", "package {P}\n\nimport \"testing\"\n\nfunc TestNothing{N}(t *testing.T) {}\n"),
+		}
+	case "ok_unsafeptr":
+		return []world.File{
+			f("model.go", basicModel),
+			f("ptr.go", `package {P}
+
+import "unsafe"
+
+func ProvidePtr{N}(b Bar) (unsafe.Pointer, error) { return unsafe.Pointer(&b), nil }
+`),
+			f("wire.go", injectHeader+`package {P}
+
+import (
+	"unsafe"
+
+	"github.com/google/wire"
+)
+
+func InitBar() {RES} {
+	wire.Build(ProvideFoo{N}, ProvideBar)
+	{RET}
+}
+
+func InitPtr() (unsafe.Pointer, error) {
+	wire.Build(ProvideFoo{N}, ProvideBar, ProvidePtr{N})
+	return nil, nil
+}
+`),
+		}
+	case "ok_generic2":
+		return []world.File{
+			f("model.go", basicModel+`
+// Pair is generic in two type parameters.
+type Pair[K comparable, V any] struct {
+	Key K
+	Val V
+}
+`),
+			f("wire.go", injectHeader+`package {P}
+
+import "github.com/google/wire"
+
+func InitBar() {RES} {
+	wire.Build(ProvideFoo{N}, ProvideBar)
+	{RET}
+}
+
+// defaultPair is an ordinary declaration of the injector file: wire copies it into the output.
+var defaultPair = Pair[string, int]{Key: "k{N}", Val: {N}}
+`),
+		}
+	case "ok_setalias":
+		return []world.File{
+			f("model.go", basicModel),
+			f("sets.go", `package {P}
+
+import "github.com/google/wire"
+
+// Set is another name for the type of provider sets; it is a type, not a provider set.
+type Set = wire.ProviderSet
+
+// FooSet is well-formed.
+var FooSet Set = wire.NewSet(ProvideFoo{N})
+`),
+			f("wire.go", injectHeader+`package {P}
+
+import "github.com/google/wire"
+
+func InitBar() {RES} {
+	wire.Build(FooSet, ProvideBar)
+	{RET}
 }
 `),
 		}
